@@ -4,6 +4,7 @@ import (
 	"go/token"
 	"go/types"
 
+	"dirkcheck/internal/an"
 	"dirkcheck/internal/prog"
 
 	"golang.org/x/tools/go/ssa"
@@ -38,11 +39,28 @@ func (c *Ctx) BadgerBufferDiscipline(prop string) {
 			}
 			// the callback
 			args := ci.Common().Args
-			mc, ok := args[len(args)-1].(*ssa.MakeClosure)
+			cbv := args[len(args)-1]
+			// the callback may be a function literal kept in a local of the enclosing function and captured here
+			for hop := 0; hop < 3; hop++ {
+				if u, isU := cbv.(*ssa.UnOp); isU && u.Op == token.MUL {
+					if inner, okc := an.ResolveCell(u.X); okc {
+						cbv = inner
+						continue
+					}
+				}
+				if fv, isFV := cbv.(*ssa.FreeVar); isFV {
+					if b := an.FreeVarBinding(fv); b != nil {
+						cbv = b
+						continue
+					}
+				}
+				break
+			}
+			mc, ok := cbv.(*ssa.MakeClosure)
 			var cb *ssa.Function
 			if ok {
 				cb = mc.Fn.(*ssa.Function)
-			} else if f, isFn := args[len(args)-1].(*ssa.Function); isFn {
+			} else if f, isFn := cbv.(*ssa.Function); isFn {
 				cb = f
 			}
 			if cb == nil || len(cb.Params) == 0 {
